@@ -30,7 +30,7 @@ SHARDS_PER_JOB = 4
 
 
 def cases(tier, seed):
-    ns, npipe = (32, 96) if tier == "quick" else (600, 1600)
+    ns, npipe = (32, 96) if tier == "quick" else (2000, 5000)
     out = [{"kind": "stress", "seed": seed * 100000 + i, "size": (2, 5)[i % 2]} for i in range(ns)]
 
     def opts(rng, spec):
@@ -46,7 +46,7 @@ def cases(tier, seed):
                                            "na_prob": 0.08}):
         spec["kind"] = "pipe"
         out.append(spec)
-    nstress = 8 if tier == "quick" else 1200
+    nstress = 8 if tier == "quick" else 1500
     for i in range(nstress):
         ff = common.FFS[i % 6] if False else ["AMBER", "CHARMM", "PARSE", "TYL06", "PEOEPB", "SWANSON"][i % 6]
         out.append({"kind": "pipe", "w": "synth", "seed": seed * 920001 + i, "ff": ff, "opts": [f"--ff={ff}"],
